@@ -58,7 +58,7 @@ NUMERIC_QUERIES = [{"t": "dict", "v": [["n", v]]} for v in _NUMS] + [{"t": "list
 def plan(tier, seed):
     thorough = tier == "thorough"
     n = 16
-    return [{"variant": "c" if s % 2 else "py", "part": "programs", "shard": s, "nshards": n, "params": {"programs": 900 if thorough else 130}} for s in range(n)] + (
+    return [{"variant": "c" if s % 2 else "py", "part": "programs", "shard": s, "nshards": n, "params": {"programs": 4000 if thorough else 130}} for s in range(n)] + (
         [{"variant": "c", "part": "repo_tests", "params": {}}] if thorough else [])
 
 
